@@ -160,12 +160,26 @@ func runHistory(k *vf.Case) {
 	dr := sdkmetric.NewManualReader(sdkmetric.WithTemporalitySelector(func(sdkmetric.InstrumentKind) metricdata.Temporality { return metricdata.DeltaTemporality }))
 	cr := sdkmetric.NewManualReader()
 	expoView := sdkmetric.NewView(sdkmetric.Instrument{Name: "*expo*"}, sdkmetric.Stream{Aggregation: sdkmetric.AggregationBase2ExponentialHistogram{MaxSize: vf.Pick(r, []int32{4, 20, 160}), MaxScale: vf.Pick(r, []int32{0, 5, 20})}})
-	cntHistView := sdkmetric.NewView(sdkmetric.Instrument{Name: "c_as_hist*"}, sdkmetric.Stream{Aggregation: sdkmetric.AggregationExplicitBucketHistogram{Boundaries: bounds}})
+	viewBounds := vf.Pick(r, [][]float64{bounds, {10, 100, 1000}, {50}, {}})
+	boundsOf := func(inst string) []float64 {
+		if strings.HasPrefix(inst, "c_as_hist") {
+			return viewBounds
+		}
+		return bounds
+	}
+	cntHistView := sdkmetric.NewView(sdkmetric.Instrument{Name: "c_as_hist*"}, sdkmetric.Stream{Aggregation: sdkmetric.AggregationExplicitBucketHistogram{Boundaries: viewBounds}}) // bucket layouts of different lengths next to the default one: the readers' ResourceMetrics are reused and output slots shift as instruments get their first measurement
 	mp := sdkmetric.NewMeterProvider(sdkmetric.WithReader(dr), sdkmetric.WithReader(cr), sdkmetric.WithView(expoView, cntHistView))
 	m := mp.Meter("c08")
 
 	var syncs []syncInst
 	{
+		// the re-aggregated counter is created before or after the plain histograms: with reused
+		// ResourceMetrics its data point slot then follows or precedes theirs
+		var ch metric.Int64Counter
+		chEarly := r.Bool()
+		if chEarly {
+			ch, _ = m.Int64Counter("c_as_hist_i")
+		}
 		ci, _ := m.Int64Counter("ci")
 		cf, _ := m.Float64Counter("cf")
 		ui, _ := m.Int64UpDownCounter("ui")
@@ -176,7 +190,9 @@ func runHistory(k *vf.Case) {
 		ef, _ := m.Float64Histogram("hf_expo")
 		gi, _ := m.Int64Gauge("gi")
 		gf, _ := m.Float64Gauge("gf")
-		ch, _ := m.Int64Counter("c_as_hist_i")
+		if !chEarly {
+			ch, _ = m.Int64Counter("c_as_hist_i")
+		}
 		syncs = []syncInst{
 			{"ci", "counter", func(v int64, o metric.MeasurementOption) { ci.Add(ctx, v, o.(metric.AddOption)) }},
 			{"cf", "counter", func(v int64, o metric.MeasurementOption) { cf.Add(ctx, float64(v), o.(metric.AddOption)) }},
@@ -315,6 +331,12 @@ func runHistory(k *vf.Case) {
 	fail := func(class, key, detail string) { k.Violate(class, key, detail, nil) }
 	var drm, crm metricdata.ResourceMetrics
 	vanished, reappeared := 0, 0
+	dormantUntil := map[string]int{}
+	for _, si := range syncs {
+		if r.Chance(1, 4) {
+			dormantUntil[si.name] = 1 + r.Intn(3)
+		}
+	}
 	for cyc := 0; cyc < cycles; cyc++ {
 		// ---- (un)register multi callbacks
 		if r.Chance(1, 5) && len(multis) > 0 {
@@ -340,6 +362,9 @@ func runHistory(k *vf.Case) {
 			}
 		}
 		for _, si := range syncs {
+			if cyc < dormantUntil[si.name] {
+				continue // gets its first measurement in a later cycle: output slots shift when it appears
+			}
 			for s := range active {
 				if r.Chance(1, 3) {
 					continue
@@ -381,14 +406,14 @@ func runHistory(k *vf.Case) {
 						}
 						a := mm[si.name][s]
 						if a == nil {
-							a = &agg{buckets: make([]uint64, len(bounds)+1)}
+							a = &agg{buckets: make([]uint64, len(boundsOf(si.name))+1)}
 							mm[si.name][s] = a
 						}
 						a.sum += float64(v)
 						a.count++
 						a.last = float64(v)
 						a.touched = true
-						bi := sort.SearchFloat64s(bounds, float64(v))
+						bi := sort.SearchFloat64s(boundsOf(si.name), float64(v))
 						a.buckets[bi]++
 					}
 				}
@@ -838,6 +863,92 @@ func runWide(k *vf.Case) {
 // runConcurrent: the same comparison after a history in which goroutines keep recording while both readers
 // collect. Every measurement must end up in exactly one delta collection, so at the quiescent end the
 // cumulative point (count, sum, per-bucket counts) still equals the running total of the deltas.
+// runConcurrentCreate: several goroutines ask one meter for the same asynchronous instrument at the same
+// moment, each passing the same callback. The instrument exists once, so every cycle reports what ONE run of
+// that callback observed: value v on the delta side in the first cycle, v - previous afterwards, v cumulative.
+func runConcurrentCreate(k *vf.Case) {
+	r := k.R
+	ctx := context.Background()
+	del := sdkmetric.NewManualReader(sdkmetric.WithTemporalitySelector(func(sdkmetric.InstrumentKind) metricdata.Temporality { return metricdata.DeltaTemporality }))
+	cum := sdkmetric.NewManualReader()
+	mp := sdkmetric.NewMeterProvider(sdkmetric.WithReader(del), sdkmetric.WithReader(cum))
+	defer mp.Shutdown(ctx)
+	m := mp.Meter("cc")
+	G := vf.Pick(r, []int{2, 4, 8, 16})
+	kind := r.Intn(3) // 0 counter, 1 up-down counter, 2 gauge
+	var cur atomic.Int64
+	cur.Store(int64(5 + r.Intn(50)))
+	cb := func(_ context.Context, o metric.Int64Observer) error {
+		o.Observe(cur.Load(), metric.WithAttributes(attribute.String("k", "v")))
+		return nil
+	}
+	release := make(chan struct{})
+	var wg sync.WaitGroup
+	for g := 0; g < G; g++ {
+		wg.Add(1)
+		go func() {
+			defer wg.Done()
+			<-release
+			switch kind {
+			case 0:
+				_, _ = m.Int64ObservableCounter("same", metric.WithInt64Callback(cb))
+			case 1:
+				_, _ = m.Int64ObservableUpDownCounter("same", metric.WithInt64Callback(cb))
+			default:
+				_, _ = m.Int64ObservableGauge("same", metric.WithInt64Callback(cb))
+			}
+		}()
+	}
+	close(release)
+	wg.Wait()
+	prev := int64(0)
+	for cyc := 0; cyc < 3; cyc++ {
+		v := cur.Load()
+		var rd, rc metricdata.ResourceMetrics
+		if err := del.Collect(ctx, &rd); err != nil {
+			k.Violate("collect-error", "concurrent-create delta", err.Error(), nil)
+			return
+		}
+		if err := cum.Collect(ctx, &rc); err != nil {
+			k.Violate("collect-error", "concurrent-create cumulative", err.Error(), nil)
+			return
+		}
+		one := func(rm *metricdata.ResourceMetrics) (int64, int) {
+			var val int64
+			n := 0
+			for _, sm := range rm.ScopeMetrics {
+				for _, mt := range sm.Metrics {
+					switch d := mt.Data.(type) {
+					case metricdata.Sum[int64]:
+						for _, p := range d.DataPoints {
+							val, n = p.Value, n+1
+						}
+					case metricdata.Gauge[int64]:
+						for _, p := range d.DataPoints {
+							val, n = p.Value, n+1
+						}
+					}
+				}
+			}
+			return val, n
+		}
+		dv, dn := one(&rd)
+		cv, cn := one(&rc)
+		wantD := v - prev
+		if kind == 2 {
+			wantD = v
+		}
+		if dn != 1 || cn != 1 || dv != wantD || cv != v {
+			k.Violate("async-value", "instrument created by several goroutines at once", fmt.Sprintf("kind %d, %d creators, cycle %d: the callback observes %d (previous cycle %d): delta reader reports %d (%d points, want %d), cumulative reader %d (%d points, want %d)", kind, G, cyc, v, prev, dv, dn, wantD, cv, cn, v), nil)
+			return
+		}
+		prev = v
+		cur.Add(int64(1 + r.Intn(9)))
+	}
+	k.C.Count("concurrent_create_cases", 1)
+	k.C.Sig(fmt.Sprintf("concurrent-create|%d|%d", kind, G))
+}
+
 func runConcurrent(k *vf.Case) {
 	r := k.R
 	ctx := context.Background()
@@ -1151,6 +1262,8 @@ func main() {
 		c.Cases("histories", c.N(2500, 40_000), 0, runHistory)
 		c.Cases("wide", c.N(48, 600), 0, runWide)
 		c.Cases("concurrent", c.N(200, 3000), 4, runConcurrent)
+		c.Cases("concurrent-create", c.N(3000, 40_000), 0, runConcurrentCreate)
+		c.Floor("concurrent_create_cases", 1000)
 		c.Cases("interrupted", c.N(600, 8000), 0, runInterrupted)
 		c.Floor("interrupted_histories_with_failed_attempts", 200)
 		c.Floor("concurrent_histories", 100)
